@@ -456,6 +456,10 @@ def gen_gl(rng, gt, style):
 
 def gen_dplik_case(rng):
     case = gen_dp_case(rng)
+    for _ in range(2):                # likelihoods matter most where reads compete with them: fewer read-less instances
+        if case["reads"] or rng.random() < 0.3:
+            break
+        case = gen_dp_case(rng)
     case["kind"] = "dplik"
     style = rng.choice(["called", "peaked", "peaked", "small", "small", "mixed", "mixed", "any"])
     gls = {}
